@@ -54,6 +54,7 @@ func (fio *FileIO) Size() (int64, error) {
 }
 
 func (fio *FileIO) Truncate(size int64) error {
+	verifhook.IO("truncate", fio.fd.Name(), size)
 	// 文件以 O_APPEND 方式打开, 截断后的写入自动从新的末尾开始
 	return fio.fd.Truncate(size)
 }
